@@ -25,15 +25,15 @@ const (
 	SStr  = "Str"
 )
 
-func SBV(w int) string         { return fmt.Sprintf("(_ BitVec %d)", w) }
-func SArr(k, v string) string  { return "(Array " + k + " " + v + ")" }
-func isBV(s string) bool       { return strings.HasPrefix(s, "(_ BitVec ") }
-func bvWidth(s string) int     { var w int; fmt.Sscanf(s, "(_ BitVec %d)", &w); return w }
-func (t Term) IsConst() bool   { return t.C != nil || t.B != nil }
-func (t Term) IsTrue() bool    { return t.B != nil && *t.B }
-func (t Term) IsFalse() bool   { return t.B != nil && !*t.B }
-func (t Term) String() string  { return t.S }
-func raw(s, sort string) Term  { return Term{S: s, Sort: sort} }
+func SBV(w int) string        { return fmt.Sprintf("(_ BitVec %d)", w) }
+func SArr(k, v string) string { return "(Array " + k + " " + v + ")" }
+func isBV(s string) bool      { return strings.HasPrefix(s, "(_ BitVec ") }
+func bvWidth(s string) int    { var w int; fmt.Sscanf(s, "(_ BitVec %d)", &w); return w }
+func (t Term) IsConst() bool  { return t.C != nil || t.B != nil }
+func (t Term) IsTrue() bool   { return t.B != nil && *t.B }
+func (t Term) IsFalse() bool  { return t.B != nil && !*t.B }
+func (t Term) String() string { return t.S }
+func raw(s, sort string) Term { return Term{S: s, Sort: sort} }
 func sexp(sort string, op string, args ...Term) Term {
 	var sb strings.Builder
 	sb.WriteByte('(')
@@ -261,6 +261,13 @@ func BVMul(a, b Term) Term {
 	}
 	if a.C != nil && a.C.Cmp(big.NewInt(1)) == 0 {
 		return b
+	}
+	if a.C == nil && b.C == nil && a.Sort == b.Sort {
+		// symbolic x symbolic: printed through mulx<w>, which a query defines either as bvmul
+		// (exact) or as an uninterpreted function (sound abstraction tried first: equal
+		// arguments give equal products without bit-blasting a multiplier)
+		w := bvWidth(a.Sort)
+		return sexp(a.Sort, fmt.Sprintf("mulx%d", w), a, b)
 	}
 	return bvBin("bvmul", a, b, func(x, y *big.Int, w int) *big.Int { return new(big.Int).Mul(x, y) })
 }
@@ -503,6 +510,18 @@ func RefElem(r Term, idx Term) Term {
 		return MkRef(root, raw(fmt.Sprintf("(pelem %s %s)", path.S, idx.S), SPath))
 	}
 	return raw(fmt.Sprintf("(mkref (rroot %s) (pelem (rpath %s) %s))", r.S, r.S, idx.S), SRef)
+}
+
+func mulPrelude(abstract bool) string {
+	var sb strings.Builder
+	for _, w := range []int{8, 16, 32, 64} {
+		if abstract {
+			fmt.Fprintf(&sb, "(declare-fun mulx%d ((_ BitVec %d) (_ BitVec %d)) (_ BitVec %d))\n", w, w, w, w)
+		} else {
+			fmt.Fprintf(&sb, "(define-fun mulx%d ((a (_ BitVec %d)) (b (_ BitVec %d))) (_ BitVec %d) (bvmul a b))\n", w, w, w, w)
+		}
+	}
+	return sb.String()
 }
 
 func smtPrelude(idxSort string, logicNote string) string {
